@@ -201,6 +201,26 @@ Section HeapModel.
           end
     end.
 
+  (* the worklist loop of Path.slice on the defaultdict object (look-ups create entries) *)
+  Fixpoint d_slice_loop (fuel : nat) (conds : list (cond * bool)) (d : list (Z * nat)) (S : list (list nat))
+                        (sl : list nat) (seen work : list Z)
+    : option (list nat * list (Z * nat) * list (list nat)) :=
+    match fuel with
+    | O => None
+    | Datatypes.S f =>
+        match work with
+        | [] => Some (sl, d, S)
+        | var :: rest =>
+            if existsb (Z.eqb var) seen then d_slice_loop f conds d S sl seen rest
+            else
+              let (d', S') := d_touch d S var in
+              match slice_visit cond vars conds (d_get d' S' var) sl rest with
+              | Some (sl', work') => d_slice_loop f conds d' S' sl' (var :: seen) work'
+              | None => None
+              end
+        end
+    end.
+
   (* paths[i].slice(var_set) *)
   Definition h_slice (h : heap) (i : nat) (var_set : list Z) : option heap :=
     match nth_error (o_paths h) i with
@@ -209,11 +229,14 @@ Section HeapModel.
         match hp_sliced hp with
         | Some _ => None                                   (* ValueError: already sliced *)
         | None =>
-            let R := nth (hp_rel hp) (o_rel h) [] in
-            let '(cs, d1, S1) := d_collect (nth (hp_v2c hp) (o_v2c h) []) (o_sets h) var_set [] in
-            let rel := (cs ++ flat_map (rel_get R) cs)%list in
-            Some (mkHeap (o_conds h) (o_rel h) (upd (o_v2c h) (hp_v2c hp) d1) S1 (o_solvers h)
-                         (upd (o_paths h) i (set_sliced hp (Some rel))))
+            let C := nth (hp_conds hp) (o_conds h) [] in
+            match d_slice_loop (slice_fuel cond vars C var_set) C (nth (hp_v2c hp) (o_v2c h) []) (o_sets h)
+                               [] [] (rev var_set) with
+            | Some (sl, d1, S1) =>
+                Some (mkHeap (o_conds h) (o_rel h) (upd (o_v2c h) (hp_v2c hp) d1) S1 (o_solvers h)
+                             (upd (o_paths h) i (set_sliced hp (Some sl))))
+            | None => None
+            end
         end
     end.
 
@@ -291,7 +314,7 @@ Section HeapModel.
         end
     | HSlice i vs =>
         match nth_error ps i with
-        | Some p => match slice cond p vs with Some q => Some (upd ps i q) | None => None end
+        | Some p => match slice cond vars p vs with Some q => Some (upd ps i q) | None => None end
         | None => None
         end
     | HExtend i s0 =>
